@@ -20,6 +20,7 @@ CLAIMS = {
  "C13": ("proof", "Coq theorems C13_get_releases, C13_getall_releases, C13_close_releases: for every result script (rows, fetch failure at any position, failing driver close, run error, cancelled context), query error and argument list, when Get/Run/GetAll return, and after a Close following any call sequence of any length, the result set has been closed at the driver exactly once. PARTIAL: 'connection returned to the pool' is database/sql's (specified in the Rows model, validated by the differential run on the real database/sql with a recording driver).", "§4 C13", "database/sql Rows specified in coq/Model/Iter.v (environment)"),
  "C14": ("proof", "Coq theorems over all call sequences of any length: C14_close_idempotent, C14_next_false_sticky, C14_get_guards, C14_order, C14_close_surfaces with C14_fetch_failure_recorded / C14_cancel_recorded (an early end is reported by Close, never presented as a normal end). Differential run: op sequences (all sequences up to length 4 over 5 ops x 8 scripts, plus random length <= 10 with cancellation) against the real database/sql.", "§4 C14", "database/sql Rows specified in coq/Model/Iter.v; context cancellation modelled as an atomic step"),
  "C20": ("proof", "Coq theorems over all histories: C20_same_ctx_exec / C20_same_ctx_prepare (the driver sees the caller's context at the DB-level prepare and at execution, cached or not, DB or TX) and C20_cancelled_runs_nothing (once a context is done no later step sends anything to the driver under it). PARTIAL: 'done on entry => no driver call' is database/sql's, written into the model and validated by the differential run (context marker, deadline, Err recorded by the fake driver at every call; nil context; cancel before Query and between Query and run).", "§4 C20", "database/sql context handling specified in coq/Model/Cache.v"),
+ "C12": ("proof", "Coq theorems over ALL interleavings of Query / run / Commit / Rollback steps of any number of threads on one TX (isDone read, setDone CAS and each database/sql call are separate atomic steps): C12_discipline (at most one finisher reaches the driver and exactly that one reports success, every event is on the transaction's connection, nothing is sent after COMMIT/ROLLBACK), C12_after_done (once a finisher has returned, every further Commit, Rollback, TX.Query and earlier-built Query fails with ErrTXDone and sends nothing). PARTIAL: linearisability of database/sql's Tx and 'a statement run through sql.Tx uses the connection BEGIN was sent on' are database/sql's: specified in the model, validated by the differential run (connection identity of every driver event, BEGIN..COMMIT bracket oracle, 100 real Commit/Rollback races per run).", "§4 C12", "database/sql Tx specified in coq/Model/Tx.v (environment)"),
  "C15": ("proof", "Coq theorems C15_all_or_nothing (any error => slices untouched, all scripts), C15_getall_appends (old ++ rows in order, ErrNoRows iff empty), C15_get_first_or_norows, C15_exec_outcome. PARTIAL: destination values are abstract row identities here; the value-level mapping is C06's.", "§4 C15", "database/sql Rows specified in coq/Model/Iter.v"),
 }
 
